@@ -161,6 +161,11 @@ def check_kernel(ctx, rep, name: str, k: Kernel):
                   f"found axis {r['category_axis']}")
     rep.check('C01.K', f"{name}::weights-outside-log-sum-over-sites", r['weights_multiply_log'] and r['outer_axis'] == -1, W, r,
               f"{name}: pattern weights must multiply the per-site log-likelihood and the sum must run over the site axis (-1)")
+    if k.scaler is not None:
+        ok = r.get('scaler_term') is not None and bool(r.get('scaler_inside_weighted_sum')) and bool(r.get('scaler_is_sum_log_cat'))
+        rep.check('C01.K', f"{name}::log-scalers-are-per-site-terms-inside-the-weighted-sum", ok, W, {'scaler_term': r.get('scaler_term'), 'added_after_weights': r.get('term_added_after_weights')},
+                  f"{name}: the per-site Σ log(scaler) is part of the site's log-likelihood and must be multiplied by the pattern weight with it; added outside, a pattern "
+                  f"of weight w contributes its scalers once instead of w times")
 
 
 def sibling_tuple(k: Kernel):
